@@ -219,7 +219,7 @@ type Conn struct {
 	responseMsgCache       MessageCache
 	msgIDMutex             *MutexMap
 
-	tokenHandlerContainer *coapSync.Map[uint64, HandlerFunc]
+	tokenHandlerContainer *coapSync.Map[string, HandlerFunc] // keyed by the token bytes
 	midHandlerContainer   *coapSync.Map[int32, *midElement]
 	msgID                 atomic.Uint32
 	blockwiseSZX          blockwise.SZX
@@ -353,7 +353,7 @@ func NewConnWithOpts(session Session, cfg *Config, opts ...Option) *Conn {
 		},
 		blockwiseSZX: cfg.BlockwiseSZX,
 
-		tokenHandlerContainer:     coapSync.NewMap[uint64, HandlerFunc](),
+		tokenHandlerContainer:     coapSync.NewMap[string, HandlerFunc](),
 		midHandlerContainer:       coapSync.NewMap[int32, *midElement](),
 		processReceivedMessage:    cfg.ProcessReceivedMessage,
 		errors:                    cfg.Errors,
@@ -436,11 +436,11 @@ func (cc *Conn) doInternal(req *pool.Message) (*pool.Message, error) {
 	reqMessageID := req.MessageID()
 	// a token identifies one thing at a time: with the token of a live observation the request and the
 	// observation would share everything that arrives
-	if _, ok := cc.observationHandler.GetObservation(token.Hash()); ok {
+	if o, ok := cc.observationHandler.GetObservation(token.Hash()); ok && bytes.Equal(o.Request().Token, token) {
 		return nil, fmt.Errorf("cannot add token(%v) handler: %w", token, coapErrors.ErrKeyAlreadyExists)
 	}
 	respChan := make(chan *pool.Message, 1)
-	if _, loaded := cc.tokenHandlerContainer.LoadOrStore(token.Hash(), func(w *responsewriter.ResponseWriter[*Conn], r *pool.Message) {
+	if _, loaded := cc.tokenHandlerContainer.LoadOrStore(string(token), func(w *responsewriter.ResponseWriter[*Conn], r *pool.Message) {
 		r.Hijack()
 		select {
 		case respChan <- r:
@@ -457,7 +457,7 @@ func (cc *Conn) doInternal(req *pool.Message) (*pool.Message, error) {
 		return nil, fmt.Errorf("cannot add token(%v) handler: %w", token, coapErrors.ErrKeyAlreadyExists)
 	}
 	defer func() {
-		_, _ = cc.tokenHandlerContainer.LoadAndDelete(token.Hash())
+		_, _ = cc.tokenHandlerContainer.LoadAndDelete(string(token))
 	}()
 	verifhook.Yield("udp.doInternal.afterRegister", token.Hash())
 	err := cc.writeMessage(req)
@@ -505,7 +505,7 @@ func (cc *Conn) doObserve(req *pool.Message, observeFunc func(req *pool.Message)
 	cc.receivedMessageReader.TryToReplaceLoop()
 	// a token identifies one thing at a time: a request that is waiting for its response under this token would
 	// share everything that arrives with the observation
-	if _, ok := cc.tokenHandlerContainer.Load(req.Token().Hash()); ok {
+	if _, ok := cc.tokenHandlerContainer.Load(string(req.Token())); ok {
 		return nil, fmt.Errorf("cannot add token(%v) handler: %w", req.Token(), coapErrors.ErrKeyAlreadyExists)
 	}
 	return cc.observationHandler.NewObservation(req, observeFunc)
@@ -779,7 +779,7 @@ func (cc *Conn) loadAndDeleteTokenHandler(m *pool.Message) (HandlerFunc, bool) {
 	if m.Code() >= codes.GET && m.Code() < codes.Code(0x20) {
 		return nil, false
 	}
-	return cc.tokenHandlerContainer.LoadAndDelete(m.Token().Hash())
+	return cc.tokenHandlerContainer.LoadAndDelete(string(m.Token()))
 }
 
 // Sequence acquires sequence number.
